@@ -93,24 +93,44 @@ def threaded_unit(Nu, Nv):
                 p = tm.add(tm.mul(C(j * Nv + i), nt.t), k.t)
                 serial[(j, i)] = (sidx.get((C(0), p)), sidx.get((C(1), p)), sdat.get((p,)))
             hyps_serial = c.all_hyps()
-            for n in range(1, Nu * Nv + 3):
+            for n, schedule in [(n_, sc) for n_ in range(1, Nu * Nv + 3) for sc in ("eager", "late")]:
                 events = []
 
                 class Thread:
-                    def __init__(self, target=None, args=()):
-                        self.target, self.args, self.id = target, args, len([e for e in events if e[0] == "create"])
+                    """recording stand-in for threading.Thread.  Two legal schedules are played: `eager` runs a worker when it is started,
+                    `late` runs every worker only when the launcher first joins one (all workers created/started before any of them runs) —
+                    arguments must therefore be bound at creation time, not read from the launcher's variables later."""
+                    pending = []
+
+                    def __init__(self, target=None, args=(), kwargs=None):
+                        self.target, self.args, self.kwargs, self.id = target, args, kwargs or {}, len([e for e in events if e[0] == "create"])
+                        self.ran = False
                         events.append(("create", self.id))
 
-                    def start(self):
-                        events.append(("start", self.id))
+                    def run_now(self):
+                        if self.ran:
+                            return
+                        self.ran = True
                         _cur[0] = self.id
                         try:
-                            self.target(*self.args)      # sequentialised; disjointness makes the order irrelevant
+                            self.target(*self.args, **self.kwargs)      # sequentialised; disjointness makes the order irrelevant
                         finally:
                             _cur[0] = None
 
+                    def start(self):
+                        events.append(("start", self.id))
+                        if schedule == "eager":
+                            self.run_now()
+                        else:
+                            Thread.pending.append(self)
+
                     def join(self):
+                        for t_ in list(Thread.pending):
+                            t_.run_now()
+                        Thread.pending.clear()
                         events.append(("join", self.id))
+
+                Thread.pending = []
 
                 log = []
                 orig_zeros = sarr.NPModel._zeros
@@ -131,7 +151,7 @@ def threaded_unit(Nu, Nv):
                         tidx, tdat, tshape, tlshape = bf._assemble(ub, vb)
                 finally:
                     sarr.NPModel._zeros = orig_zeros
-                tag = "%s/n%d" % (pre, n)
+                tag = "%s/n%d/%s" % (pre, n, schedule)
                 writes = [(e[1], e[2]) for e in log if e[0] == "write"]
                 main_writes = [w for w in writes if w[0] is None]
                 ctx.fact(tag + "/once", fn, not main_writes, "the serial in-loop kernel also ran: %s" % main_writes[:2],
